@@ -151,7 +151,8 @@ OP = "models.pddl_operator:Operator."
 _ST = ("ref", "State")
 _OPR = ("ref", "Operator")
 _app = z3.Function("op_applicable", I, I, B)          # the operator's precondition holds in the state (C02, bounded)
-_HK = {"op_applicable": lambda interp, st, a: Val(_app(a[0].t, a[1].t), "bool")}
+from contracts.c14 import HOOKS_OPAQUE as _C14_OPAQUE
+_HK = dict(_C14_OPAQUE, op_applicable=lambda interp, st, a: Val(_app(a[0].t, a[1].t), "bool"))
 from contracts.c14 import CONTRACTS as _C14_CONTRACTS, STATE_WF as _STATE_WF
 CONTRACTS = {
     OP + "ground": dict(prop="C03", assumed=True, params={"self": _OPR}, returns="none", ensures=["self.grounded"], raises={"KeyError": "True"},
